@@ -164,7 +164,9 @@ def tokeniser_table(prog):
                         continue
                     nxts = [stt["rv"]["variant"] for b in hp.blocks for stt in fn.stmts(b)
                             if stt["k"] == "assign" and stt["rv"]["k"] == "agg" and stt["rv"].get("adt") == ZD + "State"]
-                    outs.add(("escape" if escaped else "append" if appended and not tok_end else "special", tok_end, nxts[-1] if nxts else None))
+                    # an escape yields one octet, which goes into the token's text and into its octets (like any other character)
+                    kind_ = ("escape" if appended else "escape-lost") if escaped else ("append" if appended and not tok_end else "special")
+                    outs.add((kind_, tok_end, nxts[-1] if nxts else None))
                 table[(st, ch, lcv)] = outs
     return table, fn, states
 
